@@ -7,6 +7,11 @@ impl<SE: crate::extensions::ShellExtensions> crate::Shell<SE> {
     ///
     /// This currently includes invoking the `EXIT` trap handler, if any.
     pub async fn on_exit(&mut self) -> Result<(), error::Error> {
+        #[cfg(feature = "verif-hooks")]
+        crate::verif::event(
+            "shell.on_exit",
+            &format!("\"status\":{},\"subshell\":{}", self.last_exit_status, self.is_subshell()),
+        );
         if self.traps.handles(TrapSignal::Exit) {
             self.invoke_trap_handler(TrapSignal::Exit, &self.default_exec_params())
                 .await?;
@@ -77,12 +82,27 @@ impl<SE: crate::extensions::ShellExtensions> crate::Shell<SE> {
         // (never early-returned with `?`), so `leave_trap_handler()` always runs.
         self.enter_trap_handler(signal, Some(&handler));
 
+        #[cfg(feature = "verif-hooks")]
+        crate::verif::event(
+            "trap.enter",
+            &format!(
+                "\"signal\":\"{signal}\",\"status\":{orig_last_exit_status},\"subshell\":{}",
+                self.is_subshell()
+            ),
+        );
+
         let result = self
             .run_string(&handler.command, &handler.source_info, &params)
             .await;
 
         self.leave_trap_handler();
         self.last_exit_status = orig_last_exit_status;
+
+        #[cfg(feature = "verif-hooks")]
+        crate::verif::event(
+            "trap.leave",
+            &format!("\"signal\":\"{signal}\",\"status\":{}", self.last_exit_status),
+        );
 
         result
     }
